@@ -221,6 +221,62 @@ func checkPinnedImpl(queryFile string, extra []string, dir, name string, dropQua
 	return r.Status
 }
 
+// weakenedModel writes the query without quantified assumptions (goal kept)
+// and reports whether z3 finds a model of it.
+func weakenedModel(queryFile string) (string, bool) {
+	b, err := os.ReadFile(queryFile)
+	if err != nil {
+		return "", false
+	}
+	txt := string(b)
+	i := strings.LastIndex(txt, "(check-sat)")
+	if i < 0 {
+		return "", false
+	}
+	lines := strings.Split(txt[:i], "\n")
+	goal := -1
+	for k := len(lines) - 1; k >= 0; k-- {
+		if strings.HasPrefix(lines[k], "(assert (not ") {
+			goal = k
+			break
+		}
+	}
+	dropped := 0
+	var sb strings.Builder
+	for k, ln := range lines {
+		if k != goal && strings.HasPrefix(ln, "(assert ") && (strings.Contains(ln, "(forall ") || strings.Contains(ln, "(exists ")) {
+			dropped++
+			continue
+		}
+		// arrays defined by lambda (copy, append, frames) keep z3 from
+		// producing models: leave their contents open in this search query
+		if strings.HasPrefix(ln, "(define-fun ") && strings.Contains(ln, " (lambda ((i Int)) ") {
+			f := strings.Fields(ln)
+			if j := strings.Index(ln, " (lambda "); j > 0 && len(f) > 2 {
+				head := ln[len("(define-fun "):j] // name () sort
+				parts := strings.SplitN(head, " () ", 2)
+				if len(parts) == 2 {
+					sb.WriteString("(declare-const " + parts[0] + " " + parts[1] + ")\n")
+					dropped++
+					continue
+				}
+			}
+		}
+		sb.WriteString(ln)
+		sb.WriteString("\n")
+	}
+	if dropped == 0 {
+		return "", false
+	}
+	sb.WriteString("(check-sat)\n(get-model)\n")
+	p := strings.TrimSuffix(queryFile, ".smt2") + ".weak.smt2"
+	if err := os.WriteFile(p, []byte(sb.String()), 0o644); err != nil {
+		return "", false
+	}
+	r := runOneNamed("z3-new", p, 8)
+	return p, r.Status == "sat"
+}
+
 type replayParam struct {
 	Name string
 	T    types.Type
